@@ -109,7 +109,12 @@ def order_family(perm, default_ns=False, two_files=False):
                                                                        LocalElement(N("d"), own(derived), 0, 1),
                                                                        LocalElement(N("l"), own(leaf), 0, 1)]), []), file=idx)
         wrapper = GlobalElement(N("wrapper"), content=Content(Group("sequence", 1, 1, [ElementRef(own(node_el), 0, 1),
-                                                                                       LocalElement(N("extra"), own(code))]), []), file=idx)
+                                                                                       LocalElement(N("extra"), own(code)),
+                                                                                       # ... and a member whose own name is what a
+                                                                                       # numbered second `extra` might be called
+                                                                                       LocalElement(N("extra", "2"), TypeRef("int"), 0, 1)]),
+                                                       # an attribute called like one of the elements
+                                                       [Attr(N("extra"), TypeRef("string"), False)]), file=idx)
         comps = [code, node, node_el, derived, leaf, user, wrapper, date]
         f.components = [comps[i] for i in perm]
         return f
